@@ -130,7 +130,9 @@ def oracle_sects(items, f):
     """-> None if illegal, else dict def/imp/trt: absent None | ('all', file) | ('names', [(n, file)])  (def: (file,))"""
     res = {"def": None, "imp": None, "trt": None}
     if not items:
-        return "outside"
+        return None                       # `script()` / `edit()` at family level: an empty list is rejected
+    if any(x[0] == "sf" and not x[1] for x in items):
+        return None                       # `file()`
     for s, fl, nested in _sects(items, f):
         if nested:
             return None
@@ -143,7 +145,7 @@ def oracle_sects(items, f):
         else:
             names = []
             if not s[1]:
-                return "outside"
+                return None               # `imp()` / `trt()`
             for x in s[1]:
                 if x[0] == "n":
                     names.append((x[1], fl))
@@ -151,7 +153,7 @@ def oracle_sects(items, f):
                     if fl:
                         return None
                     if not x[1]:
-                        return "outside"
+                        return None       # `file()` among the names
                     names += [(n, True) for n in x[1]]
             if len(set(n for n, _ in names)) != len(names):
                 return None
@@ -172,16 +174,16 @@ def oracle_spec(e):
         return {"script": ALL(True), "live": ALL(True), "remove": True}
     out = {"script": None, "live": None, "remove": False}
     if not e[1]:
-        return "outside"
+        return None                       # `edit()`
     parts = []
+    bad = False
     for x in e[1]:
         if x[0] == "p":
             parts.append((x[1], False))
         else:
             if not x[1]:
-                return "outside"
+                bad = True                # `file()`
             parts += [(p, True) for p in x[1]]
-    bad = False
     for p, f in parts:
         if out[p[0]] is not None:
             bad = True
@@ -505,23 +507,32 @@ class _Reject(Exception):
 def _a_names(m):
     if m[0] == "path":
         return None
-    if m[0] != "list" or not m[2]:
+    if m[0] != "list":
         raise _Outside()
-    out = []
+    if not m[2]:
+        raise _Reject()                   # imp() / trt()
+    out, rej = [], False
     for x in m[2]:
         if x[0] == "path":
             out.append(("n", x[1]))
-        elif x[0] == "list" and x[1] == "file" and x[2] and all(y[0] == "path" for y in x[2]):
-            out.append(("nf", [y[1] for y in x[2]]))
+        elif x[0] == "list" and x[1] == "file":
+            if not x[2] or not all(y[0] == "path" for y in x[2]):
+                rej = True                # file() / a non-bare name inside file(..)
+            else:
+                out.append(("nf", [y[1] for y in x[2]]))
+        elif x[1] == "file":
+            raise _Outside()              # file = lit among names
         else:
-            raise _Outside()
+            rej = True                    # foo(bar) / foo = 1: a name must be a bare word
+    if rej:
+        raise _Reject()
     return out
 
 
 def _a_sect(m):
     if m[1] == "def":
         if m[0] != "path":
-            raise _Outside()
+            raise _Reject()               # def(x) / def = 3
         return ("def",)
     if m[1] in ("imp", "trt"):
         return (m[1], _a_names(m))
@@ -532,13 +543,16 @@ def _a_sect(m):
 
 def _a_sitems(ms):
     if not ms:
-        raise _Outside()
+        raise _Reject()                   # script() / live() / edit() at family level
     out, rej = [], False
     for x in ms:
         try:
             if x[1] == "file":
-                if x[0] != "list" or not x[2]:
+                if x[0] != "list":
                     raise _Outside()
+                if not x[2]:
+                    rej = True            # file()
+                    continue
                 ss = []
                 for y in x[2]:
                     if y[1] == "file" and y[0] == "list":
@@ -568,12 +582,16 @@ def _a_part(m):
 
 
 def ast_of_meta(m, family=False):
-    """-> AST | 'reject' (an unknown key / file(file(..)) somewhere, everything else inside the grammar) | 'outside'"""
+    """-> AST | 'reject' (an unknown key, file(file(..)), an empty list `w()`, a non-bare `def` / method / trait name somewhere,
+    everything else inside the grammar) | 'outside' (forms neither the documentation nor the repairs speak about:
+    `script = 3`, a bare `file` next to other elements, `file = lit`)"""
     try:
         if m[0] == "path":
             return ("bare",)
-        if m[0] != "list" or not m[2]:
+        if m[0] != "list":
             return "outside"
+        if not m[2]:
+            return "reject"               # edit()
         if len(m[2]) == 1 and m[2][0] == ("path", "file"):
             return ("filebare",)
         if family:
@@ -582,8 +600,11 @@ def ast_of_meta(m, family=False):
         for x in m[2]:
             try:
                 if x[1] == "file":
-                    if x[0] != "list" or not x[2]:
+                    if x[0] != "list":
                         return "outside"
+                    if not x[2]:
+                        rej = True
+                        continue
                     ps = []
                     for y in x[2]:
                         if y[1] == "file" and y[0] == "list":
@@ -600,6 +621,57 @@ def ast_of_meta(m, family=False):
         return "outside"
     except _Reject:
         return "reject"
+
+
+def empties(rng, x, p=0.12):
+    """copy of an AST in which some lists were emptied (`script()`, `imp()`, `file()`, `edit()`): each must be rejected"""
+    if isinstance(x, list):
+        if x and rng.random() < p:
+            return []
+        return [empties(rng, y, p) for y in x]
+    if isinstance(x, tuple):
+        return tuple(empties(rng, y, p) for y in x)
+    return x
+
+
+def meta_slips(script, live, family=False):
+    """attribute trees with one non-bare leaf or one empty list (not expressible in the AST): (label, meta); each must be rejected"""
+    out = []
+    P, L, NV = (lambda n: ("path", n)), (lambda n, xs: ("list", n, xs)), (lambda n: ("nv", n))
+    E = lambda xs: L("edit", xs)
+    pd = {"script": script, "live": live}
+    sols = ["live"] if family else ["script", "live"]
+    wrap = (lambda sol, xs: E(xs)) if family else (lambda sol, xs: E([L(sol, xs)]))
+    for sol in sols:
+        met = (pd[sol]["mets"] or ["new"])[0]
+        trt = (pd[sol]["trts"] or ["Debug"])[0]
+        for lab, xs in [
+            ("def-list", [L("def", [P("x")])]), ("def-nv", [NV("def")]), ("def-empty", [L("def", [])]),
+            ("def-list-after-imp", [P("imp"), L("def", [P(met)])]),
+            ("file-def-list", [L("file", [L("def", [P("x")])])]),
+            ("imp-name-list", [L("imp", [L(met, [P("bar")])])]), ("imp-name-nv", [L("imp", [NV(met)])]),
+            ("imp-name-empty-list", [L("imp", [L(met, [])])]),
+            ("imp-second-name-list", [L("imp", [P(met), L("zork", [P("a")])])]),
+            ("trt-name-list", [L("trt", [L(trt, [P("bar")])])]), ("trt-name-nv", [L("trt", [NV(trt)])]),
+            ("imp-file-file", [L("imp", [L("file", [L("file", [P(met)])])])]),
+            ("imp-file-name-list", [L("imp", [L("file", [L(met, [P("b")])])])]),
+            ("imp-file-name-nv", [L("imp", [L("file", [P(met), NV(met)])])]),
+            ("file-imp-name-list", [L("file", [L("imp", [L(met, [P("bar")])])])]),
+            ("imp-empty", [L("imp", [])]), ("trt-empty", [L("trt", [])]), ("imp-empty-after-def", [P("def"), L("imp", [])]),
+            ("file-empty", [L("file", [])]), ("file-empty-after-def", [P("def"), L("file", [])]),
+            ("imp-file-empty", [L("imp", [L("file", [])])]), ("imp-name-then-file-empty", [L("imp", [P(met), L("file", [])])]),
+            ("file-imp-empty", [L("file", [L("imp", [])])]),
+        ]:
+            out.append(("%s-%s" % (lab, sol), wrap(sol, xs)))
+        if not family:
+            out.append(("part-empty-%s" % sol, E([L(sol, [])])))
+            out.append(("part-empty-after-%s" % sol, E([P("live" if sol == "script" else "script"), L(sol, [])])))
+            out.append(("file-part-empty-%s" % sol, E([L("file", [L(sol, [])])])))
+    out.append(("edit-empty", E([])))
+    out.append(("edit-file-empty", E([L("file", [])])))
+    if not family:
+        out.append(("edit-file-empty-after-part", E([P("script"), L("file", [])])))
+    return out
 
 
 def slips(rng, script, live):
@@ -649,4 +721,13 @@ def slips(rng, script, live):
                     out.append(("unknown-name-empty-%s-%s" % (sol, k), ("list", [("p", (sol, [("s", (k, [("n", "zork")]))]))])))
         out.append(("nest-part-sect-%s" % sol, ("list", [("pf", [(sol, [("sf", [("def",)])])])])))
         out.append(("nest-part-sect2-%s" % sol, ("list", [("p", (other, None)), ("pf", [(sol, [("s", ("def",)), ("sf", [("imp", None)])])])])))
+        # empty lists (rejected since the repair of `name()`)
+        out.append(("empty-part-%s" % sol, ("list", [("p", (sol, []))])))
+        out.append(("empty-file-in-part-%s" % sol, ("list", [("p", (sol, [("s", ("def",)), ("sf", [])]))])))
+        for k in ("imp", "trt"):
+            out.append(("empty-%s-%s" % (k, sol), ("list", [("p", (sol, [("s", (k, []))]))])))
+            out.append(("empty-file-in-%s-%s" % (k, sol), ("list", [("p", (sol, [("s", (k, [("nf", [])]))]))])))
+    out.append(("empty-edit", ("list", [])))
+    out.append(("empty-file", ("list", [("pf", [])])))
+    out.append(("empty-file-after-part", ("list", [("p", ("script", None)), ("pf", [])])))
     return out
